@@ -16,7 +16,8 @@ from vlib import runner
 
 ID = "C03"
 LEVEL = "exploration"
-EXHAUSTIVE = True
+EXHAUSTIVE = False
+EXHAUSTIVE_STREAMS = {'abstract': 'all histories of length <= L over the 40 statement kinds (complete)', 'sql': 'sampled'}
 RULE = ("abstract stream: ALL histories of length L (L=3 quick, L=4 thorough; plus all of length 1..L-1) over 40 statement "
         "kinds = 31 read-set x at-most-one-write statements + 3 DROP + 6 RENAME on tables {a,b,c}; sql stream: Hypothesis "
         "scripts of 2-8 statements over 5 tables rendered to SQL. Non-trivial = at least two statements of the history "
